@@ -75,6 +75,12 @@ ViaParent(c) == IF NearestP(c) = 0 THEN 0 ELSE Nearest(ext[NearestP(c)])
 RECURSIVE ChainDefs(_)
 ChainDefs(c) == IF c = 0 THEN <<>> ELSE IF c \in defs THEN <<c>> \o ChainDefs(ext[c]) ELSE ChainDefs(ext[c])
 
+\* late static binding: in a method found at definer Nearest(c) and entered through an object of class c or
+\* through the static call c::m(), self:: (self::class, new self) names the definer and static:: (static::m(),
+\* static::class, new static) names c
+SelfOf(c) == Nearest(c)
+StaticOf(c) == c
+
 \* ---------------------------------------------------------------- like
 RECURSIVE Provided(_, _)
 Provided(c, m) == IF c = 0 THEN -1 ELSE IF prov[c][m] # -1 THEN prov[c][m] ELSE Provided(ext[c], m)
@@ -91,9 +97,12 @@ Init ==
   /\ CASE Aspect = "sub"      -> /\ iext \in SUBSET IextAll /\ impl \in SUBSET (Cls \X Ifc)
                                  /\ defs = {} /\ prov = NoProv /\ decl = NoDecl
        [] Aspect = "dispatch" -> /\ iext = {} /\ impl = {} /\ defs \in SUBSET Cls /\ prov = NoProv /\ decl = NoDecl
-       [] Aspect = "like"     -> /\ iext = {} /\ impl = {} /\ defs = {}
+       [] Aspect = "like"     -> /\ iext = {} /\ defs = {}
                                  /\ prov \in [Cls -> [Meths -> {-1, 0, 1}]]
                                  /\ decl \in {d \in [Meths -> {-1, 0, 1}] : d[1] # -1}
+                                 \* a class may also NAME the interface (implements I) when it provides every declared
+                                 \* method with some parameter count; `like` is structural and must not take the name for it
+                                 /\ impl \in SUBSET {<<c, 1>> : c \in {x \in Cls : \A m \in Meths : decl[m] # -1 => Provided(x, m) # -1}}
 
 Bit(b) == IF b THEN 1 ELSE 0
 Tables ==
@@ -101,7 +110,7 @@ Tables ==
    defs |-> [c \in Cls |-> Bit(c \in defs)], prov |-> prov, decl |-> decl,
    subc |-> [c \in Cls |-> [d \in Cls |-> Bit(SubC(c, d))]],
    subi |-> [c \in Cls |-> [i \in Ifc |-> Bit(SubI(c, i))]],
-   nearest |-> [c \in Cls |-> Nearest(c)],
+   nearest |-> [c \in Cls |-> Nearest(c)], selfOf |-> [c \in Cls |-> SelfOf(c)], staticOf |-> [c \in Cls |-> StaticOf(c)],
    hasParentDef |-> [c \in Cls |-> Bit(HasParentDef(c))],
    viaParent |-> [c \in Cls |-> ViaParent(c)],
    chainDefs |-> [c \in Cls |-> ChainDefs(c)],
@@ -120,11 +129,14 @@ IfaceInherited == \A a, b \in Cls : \A i \in Ifc : (SubC(a, b) /\ SubI(b, i)) =>
 IfaceUpward    == \A c \in Cls : \A e \in iext : SubI(c, e[1]) => SubI(c, e[2])                \* reaching i reaches what i extends
 MechanismAgrees == \A c \in Cls : /\ \A d \in Cls : ImplSubC(c, d) = SubC(c, d)
                                   /\ \A i \in Ifc : ImplSubI(c, i) = SubI(c, i)
+StaticBindsBelowSelf == \A c \in Cls : SelfOf(c) # 0 => SubC(StaticOf(c), SelfOf(c))      \* the called class is the definer or below it
 DispatchDefined == \A c \in Cls : (Nearest(c) # 0) <=> (Chain(c) \cap defs # {})
 DispatchMostDerived == \A c \in Cls : Nearest(c) # 0 => \A d \in Chain(c) \cap defs : SubC(Nearest(c), d)
 ParentIsProperAncestor == \A c \in Cls : ViaParent(c) # 0 => (ViaParent(c) \in Chain(c) /\ ViaParent(c) # NearestP(c))
 ChainVisitsEachDefinerOnce == \A c \in Cls : /\ {ChainDefs(c)[k] : k \in 1..Len(ChainDefs(c))} = Chain(c) \cap defs
                                              /\ Len(ChainDefs(c)) = Cardinality(Chain(c) \cap defs)
 \* a class that defines none of the methods is like I exactly when its parent is
+\* naming the interface changes nothing: the verdict is a function of the provided methods only
+LikeIgnoresNominal == \A c \in Cls : Like(c) = (\A m \in Meths : decl[m] # -1 => Provided(c, m) = decl[m])
 LikeMonotone == \A c \in Cls : (ext[c] # 0 /\ \A m \in Meths : prov[c][m] = -1) => (Like(c) = Like(ext[c]))
 =============================================================================
